@@ -81,7 +81,8 @@ type mode = {
 let full_annot = { annot_num = 10; holes = false; term_holes = false; forward_refs = false; divzero = false; big = true }
 let mixed = { full_annot with annot_num = 6; holes = true; divzero = true }
 
-type env = { vars : (string * ty) list; mutable fresh : int ref; aliases : (string * ty) list }
+type env = { vars : (string * ty) list; mutable fresh : int ref; aliases : (string * ty) list;
+             deps : (string * ty) list   (* dependent functions d : (b : bool) -> (if b then int else E) -> ..., with E *) }
 
 let big_pool = [| "0"; "1"; "2"; "7"; "2147483648"; "9223372036854775807"; "9223372036854775808";
                   "18446744073709551617"; "1234567890123456789012345678901234567890" |]
@@ -104,6 +105,15 @@ let funs_to (e : env) (t : ty) =
 let rec gen (r : Rng.t) (m : mode) (e : env) (t : ty) (size : int) : src =
   let g = gen r m e in
   let small = size <= 1 in
+  (* a dependent function of the scope applied at `true` (an int) or at `false` (its else type) *)
+  let via_dep = if size >= 2 && e.deps <> [] && Rng.chance r 1 6 then
+      (match t with
+       | Int -> let (d, _) = Rng.pick r e.deps in Some (SApp (SApp (SVar d, STrue), gen r m e Int (size / 2)))
+       | _ -> (match List.filter (fun (_, et) -> et = t) e.deps with
+           | [] -> None
+           | ds -> let (d, _) = Rng.pick r ds in Some (SApp (SApp (SVar d, SFalse), gen r m e t (size / 2)))))
+    else None in
+  match via_dep with Some s -> s | None ->
   match t with
   | Int ->
     let leaf () =
@@ -213,7 +223,7 @@ and gen_group r m e t size =
   let e' = ref e in
   let i = ref 0 in
   while !i < n do
-    (match Rng.int r 7 with
+    (match Rng.int r 10 with
      | 0 | 1 when per >= 3 ->
        (* recursive function with structural descent on its int argument *)
        let f = fresh_name e "f" in
@@ -240,17 +250,52 @@ and gen_group r m e t size =
        defs := (od, Some (src_of_ty fty), mk n2 ev SFalse) :: (ev, Some (src_of_ty fty), mk n1 od STrue) :: !defs;
        e' := { !e' with vars = (od, fty) :: (ev, fty) :: !e'.vars };
        incr i
-     | 3 ->
-       (* type alias *)
+     | 3 | 7 ->
+       (* type alias, possibly of an earlier alias of the same target (a chain of names for one type) *)
        let a = fresh_name e "a" in
-       let target = Rng.pick r [ Int; Bool; Arrow (Int, Int) ] in
+       let target = (match !e'.aliases with
+           | (_ :: _) as al when Rng.chance r 1 2 -> snd (Rng.pick r al)
+           | _ -> Rng.pick r [ Int; Bool; Arrow (Int, Int) ]) in
        let ann = if Rng.int r 10 < m.annot_num then Some SType else None in
-       defs := (a, ann, src_of_ty target) :: !defs;
+       let same = List.filter (fun (_, t') -> t' = target) !e'.aliases in
+       let rhs = if same <> [] && Rng.chance r 1 2 then SVar (fst (Rng.pick r same)) else src_of_ty target in
+       defs := (a, ann, rhs) :: !defs;
        e' := { !e' with aliases = (a, target) :: !e'.aliases }
+     | 8 ->
+       (* a dependent function whose type is a conditional on its (stuck) boolean parameter *)
+       let d = fresh_name e "dp" and b = fresh_name e "b" and x = fresh_name e "x" in
+       let et = Rng.pick r [ Bool; Bool; Arrow (Int, Int) ] in
+       let tyexp () = SIf (SVar b, SInt, src_of_ty et) in
+       let ann = if Rng.int r 10 < m.annot_num then Some (SPi (b, false, SBool, SArrow (tyexp (), tyexp ()))) else None in
+       let body = SLam (b, false, Some SBool, SLam (x, false, Some (tyexp ()), SVar x)) in
+       defs := (d, ann, body) :: !defs;
+       e' := { !e' with deps = (d, et) :: !e'.deps };
+       (* half of the time also an UNANNOTATED wrapper: its type is inferred from an application of d under the
+          stuck parameter, and it is later applied at `false` *)
+       if Rng.bool r then begin
+         let w = fresh_name e "dw" and b2 = fresh_name e "b" and x2 = fresh_name e "x" in
+         let wbody = SLam (b2, false, Some SBool, SLam (x2, false, Some (SIf (SVar b2, SInt, src_of_ty et)),
+                                                        SApp (SApp (SVar d, SVar b2), SVar x2))) in
+         defs := (w, None, wbody) :: !defs;
+         e' := { !e' with deps = (w, et) :: !e'.deps }
+       end
+     | 9 ->
+       (* two names for one type, and a value passed from one to the other *)
+       let a1 = fresh_name e "a" and a2 = fresh_name e "a" and v1 = fresh_name e "v" and v2 = fresh_name e "v" in
+       let target = Rng.pick r [ Int; Bool; Arrow (Int, Int) ] in
+       let tann () = if Rng.int r 10 < m.annot_num then Some SType else None in
+       let d1 = gen r m !e' target per in
+       defs := (v2, Some (SVar a2), SVar v1) :: (v1, Some (SVar a1), d1)
+               :: (a2, tann (), (if Rng.bool r then SVar a1 else src_of_ty target)) :: (a1, tann (), src_of_ty target) :: !defs;
+       e' := { !e' with aliases = (a2, target) :: (a1, target) :: !e'.aliases; vars = (v2, target) :: (v1, target) :: !e'.vars }
      | _ ->
        let x = fresh_name e "v" in
        let dt = Rng.pick r [ Int; Int; Bool; Arrow (Int, Int); Arrow (Int, Bool) ] in
-       let d = gen r m !e' dt per in
+       (* one time in five the definition is just another variable of that type (whose own type may be written
+          through a different alias) *)
+       let d = (match vars_of !e' dt with
+           | (_ :: _) as vs when Rng.chance r 1 5 -> SVar (fst (Rng.pick r vs))
+           | _ -> gen r m !e' dt per) in
        (* annotate through a local type alias of the right target when there is one: the type of the group's
           body then mentions a definition of the group *)
        let via_alias = List.filter (fun (_, t') -> t' = dt) !e'.aliases in
@@ -268,7 +313,7 @@ and gen_group r m e t size =
       | _ -> gen r m !e' t per) in
   SLet (List.rev !defs, body)
 
-let empty_env () = { vars = []; fresh = ref 0; aliases = [] }
+let empty_env () = { vars = []; fresh = ref 0; aliases = []; deps = [] }
 
 (* a whole program of the given type *)
 let program (r : Rng.t) (m : mode) (t : ty) (size : int) : src =
